@@ -888,6 +888,15 @@ struct elements_range_t {
 	pointer base_;
 	layout_type l_;
 
+	// base_ designates the element at the first index of every dimension and the flat range numbers its positions from zero:
+	// the index bases of the view play no role in it (the layout's index-to-offset map adds its offsets)
+	static constexpr auto zero_based_(layout_type lyt) -> layout_type {
+		if constexpr(layout_type::dimensionality > 0) {
+			std::apply([&lyt](auto... zeros) { lyt.reindex(zeros...); }, typename extensions_t<layout_type::dimensionality>::indices_type{});
+		}
+		return lyt;
+	}
+
  public:
 	template<class OtherRange, decltype(multi::detail::implicit_cast<pointer>(std::declval<OtherRange>().base_))* = nullptr>
 	// cppcheck-suppress noExplicitConstructor ; because underlying pointer is implicitly convertible  // NOLINTNEXTLINE(runtime/explicit)
@@ -895,7 +904,7 @@ struct elements_range_t {
 	template<class OtherRange, decltype(multi::detail::explicit_cast<pointer>(std::declval<OtherRange>().base_))* = nullptr>
 	constexpr explicit elements_range_t(OtherRange const& other) : elements_range_t{other} {}
 
-	constexpr elements_range_t(pointer base, layout_type const& lyt) : base_{base}, l_{lyt} {}
+	constexpr elements_range_t(pointer base, layout_type const& lyt) : base_{base}, l_{zero_based_(lyt)} {}
 
 	constexpr auto base()       ->       pointer {return base_;}
 	constexpr auto base() const -> const_pointer {return base_;}
